@@ -101,6 +101,9 @@ func (w *World) exec(op Op) {
 		w.markCollectable()
 	}
 	_ = busy
+	if w.k.FaultRecover {
+		w.recoverFaults(op)
+	}
 }
 
 func engineSeq(x *X) {
